@@ -257,7 +257,8 @@ func (g *Gen) innerCoroutine(cn string, depth int, esc string) []L.Stmt {
 		}
 		out = append(out, assign1(idx(name(esc), bin("+", un("#", name(esc)), num(1))), again))
 	}
-	out = append(out, emit(str(cn+" goes on after inner"), name("loc")))
+	// whatever the inner one did (returned, failed under pcall, was abandoned): its creator is the running coroutine again
+	out = append(out, emit(str(cn+" goes on after inner"), name("loc"), co("running"), co("status", co("running"))))
 	return []L.Stmt{&L.DoStmt{Body: blk(out...)}}
 }
 
